@@ -15,7 +15,8 @@ iface util.BufWriter.Flush
   modifies failed
 
 // ast.Walk runs the walker over the tree; for Render only this is used: it may do anything to the heap
-// and to the writer's failure state.  (Assumed contract: Walk's body is a recursion over dynamic calls.)
+// and to the writer's failure state.  (A claim-free summary: no requires, no ensures, modifies everything;
+// Walk's body is verified against its own `bodyspec` contract in package ast.)
 func ast.Walk
   trusted
   modifies everything
